@@ -19,7 +19,7 @@ ASSUMPTIONS = [
     'remove(x) is modelled as list.remove on the same objects (first element equal to x)',
 ]
 
-GOOD = ['{a}', '[c]', '{}', '[]']
+GOOD = ['{a}', '[c]', '{}', '[]', '{{x}}', '[a[0]]']
 BAD = ['{x', 'x]', '[x}', '{x]', 'x', '']
 IDX = [0, 1, -1, -2, 'len', 'len+3', '-len-1', '-len-3']
 INITS = [(), ('G1',), ('G1', 'K'), ('G1', 'G2'), ('G1', 'G2', 'K')]
@@ -38,6 +38,7 @@ def op_templates(reduced=False):
         ops.append(('remove', x))
     for xs in [(), ('G2',), ('K', '{a}'), ('{a}', '{x', '[c]'), ('x',)]:
         ops.append(('extend', xs))
+    ops.append(('extend-iter', ('K', '{{x}}')))     # list.extend accepts any iterable, also a one-shot iterator
     for i in [None, 0, 1, -1, -2, 'len', '-len-1']:
         ops.append(('pop', i))
     ops.append(('reverse',))
@@ -139,7 +140,7 @@ def run_sequence(init, ops, flags=None):
         exp_ret = ('none',)
         alt_models = None
         newm = list(m)
-        if flags is not None and name in ('append', 'insert', 'remove', 'extend', 'pop', 'reverse') and has_twin():
+        if flags is not None and name in ('append', 'insert', 'remove', 'extend', 'extend-iter', 'pop', 'reverse') and has_twin():
             flags.add('mutator_with_textual_duplicate')
         if name == 'append':
             it = model_item(op[1])
@@ -171,7 +172,7 @@ def run_sequence(init, ops, flags=None):
                     del newm[t.index(it[1].text)]
                 else:
                     exp_exc = ValueError
-        elif name == 'extend':
+        elif name in ('extend', 'extend-iter'):
             items = [model_item(x) for x in op[1]]
             if any(it[0] == 'bad' for it in items):
                 exp_exc = TypeError
@@ -217,6 +218,8 @@ def run_sequence(init, ops, flags=None):
                 ret = args.remove(pool.get(op[1], op[1]))
             elif name == 'extend':
                 ret = args.extend([pool.get(x, x) for x in op[1]])
+            elif name == 'extend-iter':
+                ret = args.extend(pool.get(x, x) for x in op[1])
             elif name == 'pop':
                 i = resolve(op[1], n)
                 ret = args.pop() if i is None else args.pop(i)
